@@ -1,14 +1,189 @@
 (** C09 — property theorems (statements closed by [exact]). *)
-From Coq Require Import ZArith List Bool.
-From KV Require Import Base.Outcome Base.Num C04.StaticSound C09.Model.
+From Coq Require Import ZArith QArith List Bool.
+From KV Require Import Base.IEEE Base.Outcome Base.Num C19.Model C06.Model C06.Dur C06.Run.
+From KV Require Import C04.Transport C04.Resampler C04.StaticData C04.StaticSound C04.ProofsTransport.
+From KV Require C18.Model C18.ProofsSched.
+From KV Require Import C09.Model C09.ProofsShell C09.ProofsTape C09.ProofsMain C09.ProofsLead C09.ProofsExamples C09.Run.
 Import ListNotations.
 Local Open Scope Z_scope.
 
-(** a non-negative rate (sign bit clear, not NaN, not below zero) is what both sounds advance by: the static
-    sound's [abs] and the streaming sound's [max(0.0)] leave it alone *)
+(** THE SIMULATION.  For ANY time type, frame type, sample / volume / panning operations (so: bit for bit in
+    IEEE arithmetic), any audio, slice inside it, start position (also beyond the end), loop region (also empty,
+    inverted or beyond the end), start time, initial volume / rate / panning values (fixed or modulator-linked),
+    fade-in, any conforming decoder (any packet sizes, any seek landings), any history of decoder-loop iterations
+    and callbacks with volume / rate / panning / pause / resume / resume_at / stop commands and any infos, in which
+    every rate value read is non-negative:  the two constructors succeed, and whenever the streaming run completes
+    with the decoder having kept ahead (ghost flag [false]: at every frame processed the ring held the four frames
+    looked at and the frames popped, or the decoder had finished), the static run completes too, with the same
+    output frames, the same handle state and [finished()] after every [process] call, the same handle state after
+    every [on_start_processing], and reported positions that are [index / rate] (static) and
+    [(index + fraction) / rate] (streaming) with the SAME index (as soon as the ring holds the frame being
+    heard, i.e. until the end of the data has been consumed) and the shared fractional position. *)
+Theorem streaming_simulates_static_any :
+  forall (T : Type) (NT : Num T) (ND : NumDur T) (powf : T -> T -> T)
+         (A : Type) (azero : A) (F : Type) (interp : A -> A -> A -> A -> F -> A) (cast : T -> F) (ascale : A -> F -> A)
+         (V : Type) (vinterp : V -> V -> T -> V) (silence identity : V) (amp : V -> F)
+         (P : Type) (pinterp : P -> P -> T -> P) (pcenter : P) (panned : A -> P -> A)
+         (fuel : nat) (audio : list A) (cap sr : Z) (slice : option (Z * Z)) (g : settings T V P) (B : Z),
+    wf_config A azero V P fuel audio sr slice g B ->
+    forall (psize land : nat -> nat) (evs : list (event T V P)),
+      rates_nonneg powf V P g evs ->
+      exists x0 w0,
+        static_new A azero V silence identity P pcenter fuel sr (audio_source A azero audio) slice g = Ok x0 /\
+        stream_new A azero V silence identity P pcenter audio land sr slice g = Ok w0 /\
+        forall ys,
+          run_stream powf A azero F interp cast ascale V vinterp silence identity amp P pinterp panned fuel
+                     audio psize land cap w0 evs = Ok (ys, false) ->
+          exists xs,
+            run_static powf A azero F interp cast ascale V vinterp silence identity amp P pinterp panned fuel x0 evs = Ok xs /\
+            Forall2 (obs_rel A sr) xs ys.
+Proof. exact (@simulation). Qed.
+
+(** The result does not depend on how the decoder splits its packets or on how far before the requested frame its
+    seeks land: for ANY two conforming decoders of the same audio and ANY history (no hypothesis on rates or on the
+    decoder's lead), the two streaming systems produce the same run — outcome, observations and ghost flag. *)
+Theorem packetisation_independent :
+  forall (T : Type) (NT : Num T) (ND : NumDur T) (powf : T -> T -> T)
+         (A : Type) (azero : A) (F : Type) (interp : A -> A -> A -> A -> F -> A) (cast : T -> F) (ascale : A -> F -> A)
+         (V : Type) (vinterp : V -> V -> T -> V) (silence identity : V) (amp : V -> F)
+         (P : Type) (pinterp : P -> P -> T -> P) (pcenter : P) (panned : A -> P -> A)
+         (fuel : nat) (audio : list A) (cap sr : Z) (slice : option (Z * Z)) (g : settings T V P) (B : Z),
+    wf_config A azero V P fuel audio sr slice g B ->
+    forall (psize land psize' land' : nat -> nat) (evs : list (event T V P)),
+      exists w0 w0',
+        stream_new A azero V silence identity P pcenter audio land sr slice g = Ok w0 /\
+        stream_new A azero V silence identity P pcenter audio land' sr slice g = Ok w0' /\
+        run_stream powf A azero F interp cast ascale V vinterp silence identity amp P pinterp panned fuel
+                   audio psize land cap w0 evs =
+        run_stream powf A azero F interp cast ascale V vinterp silence identity amp P pinterp panned fuel
+                   audio psize' land' cap w0' evs.
+Proof. exact (@packet_independence). Qed.
+
+(** "The decoder keeps ahead", checkable from outside: a [process] call after which the ring still holds four
+    entries was not starved (the ring only shrinks during a call) — whatever happened before. *)
+Theorem kept_ahead_if_four_remain :
+  forall (T : Type) (NT : Num T) (ND : NumDur T) (powf : T -> T -> T)
+         (A : Type) (azero : A) (F : Type) (interp : A -> A -> A -> A -> F -> A) (cast : T -> F) (ascale : A -> F -> A)
+         (V : Type) (vinterp : V -> V -> T -> V) (identity : V) (amp : V -> F)
+         (P : Type) (pinterp : P -> P -> T -> P) (panned : A -> P -> A) (fuel : nat)
+         (z z' : stream_sound T A V P) (len : Z) (dt : T) (i : info T) (o : obs T A) (st : bool),
+    stream_process powf A azero F interp cast ascale V vinterp identity amp P pinterp panned fuel z len dt i = Ok (z', o, st) ->
+    (4 <= length (y_ring (z_core z')))%nat -> st = false.
+Proof. exact (@process_lead). Qed.
+
+(** Positions "within one frame", exact arithmetic: along every streaming run with non-negative time steps the
+    fraction added to the reported position stays in [0, 1) ... *)
+Theorem streaming_fraction_in_unit_interval_Q :
+  forall (A : Type) (azero : A) (F : Type) (interp : A -> A -> A -> A -> F -> A) (cast : Q -> F) (fuel : nat)
+         (powf : Q -> Q -> Q) (ascale : A -> F -> A) (V : Type) (vinterp : V -> V -> Q -> V) (silence identity : V)
+         (amp : V -> F) (P : Type) (pinterp : P -> P -> Q -> P) (panned : A -> P -> A) (audio : list A)
+         (psize land : nat -> nat) (cap : Z) (evs : list (event Q V P)) (w : stream Q A V P)
+         (ys : list (obs Q A)) (st : bool),
+    w_ok A V P w -> dts_nonneg V P evs ->
+    run_stream powf A azero F interp cast ascale V vinterp silence identity amp P pinterp panned fuel audio psize land cap w evs
+      = Ok (ys, st) ->
+    Forall (pos_frac_ok A) ys.
+Proof. exact (@run_frac). Qed.
+
+(** ... so two related position reports are less than one frame apart (the streaming one ahead). *)
+Theorem positions_within_one_frame_Q :
+  forall (idx sr : Z) (fp px py : Q),
+    0 < sr -> frac_ok fp ->
+    px = ndiv (nofZ idx) (nofZ sr) -> py = ndiv (nadd (nofZ idx) fp) (nofZ sr) ->
+    (0 <= (py - px) * inject_Z sr /\ (py - px) * inject_Z sr < 1)%Q.
+Proof. exact pos_within. Qed.
+
+(** The decoder contract is all the scheduler needs: over ANY packetisation and seek-landing function,
+    [frame_at_index] at a playing transport position returns the frame of the audio under the slice that the static
+    sound reads there (zero beyond the slice), and keeps its bookkeeping consistent. *)
+Theorem scheduler_frame_correct :
+  forall (A : Type) (azero : A) (fuel : nat) (audio : list A) (slice : option (Z * Z)) (start : Z)
+         (lr : option (Z * Z)) (B : Z),
+    slice_wf A audio slice -> Z.of_nat (length audio) < u64_max -> 0 <= start -> start < B ->
+    N A azero audio slice <= B -> B < u64_max -> B < Z.of_nat fuel -> req_loop B lr -> (length audio <= fuel)%nat ->
+    forall (ps ld : nat -> nat) (q : producer A) (j : nat),
+      q_slice q = slice -> q_n q = N A azero audio slice -> KV.C18.ProofsSched.inv audio (q_dec q) ->
+      pl A azero fuel audio slice start lr j = true ->
+      exists dec',
+        q_frame_at_index A azero fuel audio ps ld q (t_pos (tr_at A azero fuel audio slice start lr j))
+          = Ok (Some (rf_frame (prec A azero fuel audio slice start lr (S j))), dec') /\
+        KV.C18.ProofsSched.inv audio dec'.
+Proof. exact (@q_frame_at_index_any). Qed.
+
+(** The natural end is detected in the same frame: the static sound's "transport stopped and resampler empty" flag
+    after [h + 3] position updates equals the streaming sound's "reached_end and ring empty". *)
+Theorem natural_end_agrees :
+  forall (A : Type) (azero : A) (fuel : nat) (audio : list A) (slice : option (Z * Z)) (start : Z)
+         (lr : option (Z * Z)),
+    (length audio <= fuel)%nat ->
+    forall (hx hz m : nat) (fin : bool),
+      Rel A azero fuel audio slice start lr hx hz m fin ->
+      flag_at A azero fuel audio slice start lr (hx + 3) =
+      fin && (match ring_at A azero fuel audio slice start lr hz m with [] => true | _ => false end).
+Proof. exact (@Rel_flag). Qed.
+
+(** a non-negative rate is what both sounds advance by: [abs] and [max(0.0)] leave it alone *)
 Theorem nonneg_rate_same_step :
-  forall (T : Type) (NT : Num T) (r : T),
-    nsignneg r = false -> nisnan r = false -> nltb r n0 = false -> nabs r = r /\ nmax0 r = r.
-Proof.
-  intros T NT r H1 H2 H3. unfold nabs, nmax0. rewrite H1, H2, H3. split; reflexivity.
-Qed.
+  forall (T : Type) (NT : Num T) (r : T), rate_nonneg r -> nabs r = r /\ nmax0 r = r.
+Proof. exact (@nonneg_steps). Qed.
+
+(** the rate hypothesis is decidable on concrete histories *)
+Theorem rates_check_sound :
+  forall (T : Type) (NT : Num T) (ND : NumDur T) (powf : T -> T -> T) (V P : Type)
+         (evs : list (event T V P)) (rate : param T T),
+    rates_okb powf V P rate evs = true -> rates_ok powf V P rate evs.
+Proof. exact (@rates_okb_sound). Qed.
+
+(** the handle's state mirror always shows the state manager's state (both sounds: it is shell code) *)
+Theorem mirror_shows_state :
+  forall (T : Type) (NT : Num T) (ND : NumDur T) (powf : T -> T -> T) (V : Type) (vinterp : V -> V -> T -> V)
+         (identity : V) (P : Type) (pinterp : P -> P -> T -> P) (h : shell T V P) (dtl : T) (i : info T)
+         (h' : shell T V P) (go : bool),
+    mirror_ok V P h -> shell_update powf V vinterp identity P pinterp h dtl i = Ok (h', go) -> mirror_ok V P h'.
+Proof. exact (@mirror_ok_update). Qed.
+
+(** ** the hypotheses are satisfiable together: a sliced, looping sound started inside the slice, rate and volume
+    tweens, a pause and a resume, a decoder with packets of 1, 2, 3, ... frames whose seeks land on multiples of 4 *)
+Theorem hypotheses_satisfiable :
+  wf_config fq zq Q Q fuelq audio8 4 (Some (1, 7)) g1 7 /\ rates_nonneg powq Q Q g1 evs1 /\
+  exists w ys, y_newq audio8 ld1 4 (Some (1, 7)) g1 = Ok w /\ y_runq audio8 ps1 ld1 capq w evs1 = Ok (ys, false) /\
+               (13 <= length ys)%nat.
+Proof. exact (conj wf1 (conj rates1 ahead1)). Qed.
+
+(** ** each hypothesis is needed *)
+(** the decoder does not keep ahead (three frames in the ring before a call that looks at four): outputs differ *)
+Theorem starved_refuted :
+  wf_config fq zq Q Q fuelq audio8 4 None g2 8 /\ rates_nonneg powq Q Q g2 evs2 /\
+  exists x w xs ys,
+    s_newq 4 (audio_source fq zq audio8) None g2 = Ok x /\ y_newq audio8 ld1 4 None g2 = Ok w /\
+    s_runq x evs2 = Ok xs /\ y_runq audio8 ps1 ld1 capq w evs2 = Ok (ys, true) /\
+    ~ Forall2 (obs_rel fq 4) xs ys.
+Proof. exact starved_witness. Qed.
+
+(** the slice reaches beyond the audio: the static sound clips it and plays, the streaming sound's decoder runs
+    out of data, the sound stops with an error and is silent throughout *)
+Theorem slice_beyond_audio_refuted :
+  ~ slice_wf fq audio8 (Some (5, 11)) /\ rates_nonneg powq Q Q g2 evs3 /\
+  exists x w xs ys,
+    s_newq 4 (audio_source fq zq audio8) (Some (5, 11)) g2 = Ok x /\ y_newq audio8 ld1 4 (Some (5, 11)) g2 = Ok w /\
+    s_runq x evs3 = Ok xs /\ y_runq audio8 ps1 ld1 capq w evs3 = Ok (ys, false) /\
+    ~ Forall2 (obs_rel fq 4) xs ys.
+Proof. exact slice_beyond_witness. Qed.
+
+(** a negative rate: the static sound plays backwards, the streaming sound stands still *)
+Theorem negative_rate_refuted :
+  wf_config fq zq Q Q fuelq audio8 4 None g4 8 /\ ~ rates_nonneg powq Q Q g4 evs4 /\
+  exists x w xs ys,
+    s_newq 4 (audio_source fq zq audio8) None g4 = Ok x /\ y_newq audio8 ld1 4 None g4 = Ok w /\
+    s_runq x evs4 = Ok xs /\ y_runq audio8 ps1 ld1 capq w evs4 = Ok (ys, false) /\
+    ~ Forall2 (obs_rel fq 4) xs ys.
+Proof. exact negative_rate_witness. Qed.
+
+(** binary64 / binary32: an initial rate of -0.0 (not NaN, not below zero, sign bit set) followed by
+    [set_playback_rate(1.0)]: the static sound's pre-fill has walked backwards from the start position; the
+    encoded traces of the two models (left and right of the 777777 mark in [Run.run]) differ *)
+Theorem negative_zero_rate_refuted :
+  let r := f64_of_bits nz64 in
+  nisnan r = false /\ nltb r n0 = false /\ nsignneg r = true /\
+  exists l1 l2, run negzero_case = l1 ++ 777777 :: l2 /\ ~ In 777777 l1 /\ l1 <> l2.
+Proof. exact negative_zero_witness. Qed.
